@@ -856,3 +856,15 @@ Section UnpackComp.
     intros Hne. unfold run_unpack. simpl. rewrite tuple_cl_zipU. destruct ts; [contradiction|reflexivity].
   Qed.
 End UnpackComp.
+
+(* ------------------------------------------------------------------ *)
+(* the order of union members is observable (so shape types that are equal up to member order -
+   typing.Union compares them as sets - must not share a codec, e.g. in a cache of the one-shot functions) *)
+Definition E_tw : env :=
+  [mkC "A" None [f_ "ref" TInt] None true; mkC "B" None [f_ "ref" TStr] None true].
+Lemma union_order_witness :
+  run_unpack E_tw Codec (TUnion [TData "A"; TData "B"]) (VDict [("ref", VStr "42")]) = Ok (VObj "A" [("ref", VInt 42)]) /\
+  run_unpack E_tw Codec (TUnion [TData "B"; TData "A"]) (VDict [("ref", VStr "42")]) = Ok (VObj "B" [("ref", VStr "42")]) /\
+  run_pack E_look Codec None (TUnion [TData "K1"; TData "K0"]) v_look = Ok (VDict [("x", VStr "2020-01-02")]) /\
+  run_pack E_look Codec None (TUnion [TData "K0"; TData "K1"]) v_look = Ok (VDict [("x", VDate "2020-01-02")]).
+Proof. repeat split; reflexivity. Qed.
